@@ -224,7 +224,7 @@ DIRECTED_URLS = ["\x00http://example.com", "\x01\x02 http://www.example.com/x", 
                  "http://xn--tlrama-bvab.fr/x", "http://TÉLÉRAMA.FR", "http://amp-news.example.com/x.amp", "http://amp.example.com", "https://user:pw@www.example.com:8080/a?b=1#c",
                  "http://r.example.net/out?url=https%3A%2F%2Fwww.lemonde.fr%2Fa", "https://mashable-com.cdn.ampproject.org/c/s/mashable.com/2018/x.amp", "http://[::1]:8080/x", "http://1.2.3.4/x",
                  "localhost:8000/a", "//www.example.com/a", "example.com", "http://de.example.com.au/x", "http://us.shop.example.pvt.k12.ma.us/", "http://www.ck/x", "http://fr.foo.ck/",
-                 "http://example.com/a/b/../c?utm_source=1&z=2&a=1#!/route", "http://example.com/%7Efoo?é=%C3%A9#frag", "HTTP://EXAMPLE.COM:80/A", "http://example.com./x", "http://www.m.example.com/"]
+                 "http://example.com/a/b/../c?utm_source=1&z=2&a=1#!/route", "http://example.com/%7Efoo?é=%C3%A9#frag", "HTTP://EXAMPLE.COM:80/A", "http://example.com./x", "http://www.m.example.com/", "http://example.com/../x/y", "http://example.com/a/../../b?q=1", "http://münchen.de/x", "http://xn--mnchen-3ya.de/x"]
 DIRECTED_HOSTS = ["fr.facebook.com", "fr-FR.facebook.com", "www.lemonde.fr", "m.example.co.uk", "amp-x.example.com", "amp.example.com", "xn--tlrama-bvab.fr", "TÉLÉRAMA.fr", " Example.COM ",
                   "fr.example.com.au", "de.co.uk", "co.uk", "com", "us.fr.example.com", "www.fr.example.com", "fr.www.example.com", "en-us.example.com", "localhost", "1.2.3.4", "forum-m.example.com",
                   "fr.foo.ck", "a.b.c.d.example.org", "\x00example.com"]
